@@ -541,6 +541,65 @@ def _rot_dialects(g, others, rotate):
     return [others[(g + r * (k // rotate if rotate else 1)) % k] for r in range(rotate)] if rotate < k else list(others)
 
 
+# repetition families: "work proportional to a small polynomial of the input length" needs inputs whose length GROWS;
+# (prefix, repeated fragment, suffix builder) -- k repetitions, k from a fixed list per tier
+SCALING = [
+    ("SELECT * FROM t", " CROSS JOIN u", lambda k: ""),
+    ("SELECT * FROM t", " JOIN u ON t.a = u.a", lambda k: ""),
+    ("SELECT * FROM t", " LEFT JOIN u USING (a)", lambda k: ""),
+    ("SELECT * FROM t", " JOIN u", lambda k: ""),
+    ("SELECT * FROM t", ", u", lambda k: ""),
+    ("SELECT * FROM t", " NATURAL JOIN u", lambda k: ""),
+    ("SELECT a FROM t WHERE a = 1", " AND b = 2", lambda k: ""),
+    ("SELECT a FROM t WHERE a = 1", " OR NOT b = 2", lambda k: ""),
+    ("SELECT 1", " + 1", lambda k: ""),
+    ("SELECT 'x'", " || 'y'", lambda k: ""),
+    ("SELECT a", ", b AS c", lambda k: " FROM t"),
+    ("SELECT ", "(", lambda k: "1" + ")" * k),
+    ("SELECT ", "f(", lambda k: "1" + ")" * k),
+    ("SELECT ", "CAST(", lambda k: "1" + " AS INT)" * k),
+    ("SELECT ", "NOT ", lambda k: "a"),
+    ("SELECT ", "- ", lambda k: "1"),
+    ("SELECT CASE", " WHEN a = 1 THEN 2", lambda k: " END"),
+    ("SELECT 1", " UNION ALL SELECT 1", lambda k: ""),
+    ("SELECT a FROM t", " LIMIT (SELECT 1", lambda k: ")" * k),
+    ("SELECT * FROM ", "(SELECT * FROM ", lambda k: "t" + ") AS s" * k),
+    ("WITH c AS (SELECT 1)", ", d AS (SELECT 1)", lambda k: " SELECT * FROM c"),
+    ("SELECT a FROM t ORDER BY a", ", b DESC NULLS LAST", lambda k: ""),
+    ("SELECT a FROM t GROUP BY a", ", b", lambda k: ""),
+    ("SELECT a", "[1]", lambda k: " FROM t"),
+    ("SELECT a", ".b", lambda k: " FROM t"),
+    ("SELECT a IN (1", ", 2", lambda k: ") FROM t"),
+    ("SELECT COALESCE(a", ", b", lambda k: ") FROM t"),
+    ("SELECT a FROM t WHERE a BETWEEN 1 AND 2", " AND b BETWEEN 1 AND 2", lambda k: ""),
+    ("INSERT INTO t VALUES (1)", ", (2)", lambda k: ""),
+    ("CREATE TABLE t (a INT", ", b INT NOT NULL", lambda k: ")"),
+    ("SELECT a FROM t WHERE EXISTS (SELECT 1", " WHERE EXISTS (SELECT 1", lambda k: ")" * (k + 1)),
+    ("SELECT SUM(a) OVER (PARTITION BY b", ", c", lambda k: ") FROM t"),
+    ("SELECT 1", "; SELECT 1", lambda k: ""),
+    ("SELECT a FROM t", " /* c */", lambda k: ""),
+    ("SELECT '", "''", lambda k: "'"),
+]
+SCALING_DIALECTS = ["", "duckdb", "snowflake", "bigquery", "tsql", "mysql", "postgres", "clickhouse", "spark", "oracle"]
+
+
+def scaling_tag(sql):
+    """'' for ordinary inputs; for an input of a repetition family, the repeated fragment (so that super-polynomial
+    behaviour on one construct is a different finding from the same symptom on another construct)."""
+    for pre, frag, _suf in SCALING:
+        if sql.startswith(pre + frag * 8):
+            return ":rep[" + "_".join(frag.split()) + "]"
+    return ""
+
+
+def scaling(ks):
+    out = []
+    for pre, frag, suf in SCALING:
+        for k in ks:
+            out.append(pre + frag * k + suf(k))
+    return out
+
+
 def items_for(tier):
     ds = corpus.dialects()
     others = [d for d in ds if d != ""]
@@ -574,7 +633,9 @@ def items_for(tier):
         stats["keyword_soups"] = len(sp)
         ch = [(x, d, all4) for x in char_strings(3) for d in ds]
         stats["char_strings"] = len(ch)
-        items += b + c + sp + ch
+        sc_ = [(x, d, all4 if d == "" else ign) for x in scaling((8, 16, 24)) for d in SCALING_DIALECTS]
+        stats["scaling_repetitions"] = len(sc_)
+        items += b + c + sp + ch + sc_
     else:
         b = [(m, d, all4) for m in muts for d in ds]
         stats["mutations"] = len(b)
@@ -584,7 +645,9 @@ def items_for(tier):
         stats["keyword_soups"] = len(sp)
         ch = [(x, d, all4) for x in char_strings(4) for d in ds]
         stats["char_strings"] = len(ch)
-        items += b + c + sp + ch
+        sc_ = [(x, d, all4) for x in scaling((8, 16, 24, 32, 48)) for d in ds]
+        stats["scaling_repetitions"] = len(sc_)
+        items += b + c + sp + ch + sc_
     return items, stats
 
 
@@ -631,12 +694,15 @@ def run(tier, seed):
         sql, dialect, levels = item
         if r == KILLED:
             killed += 1
-            key = "c05:hang:any:killed-by-watchdog"
+            key = "c05:hang:any:killed-by-watchdog" + scaling_tag(sql)
             vs = [(key, f"no answer within {ITEM_KILL}s wall clock even with the in-process alarm (child killed)",
                    {"sql": sql, "dialect": dialect, "levels": list(levels), "phase": "any"})]
             nt = True
         else:
             (a, b, c, t_), nt, vs, (mt_, tl_, mp_, pl_) = r
+            tag = scaling_tag(sql)
+            if tag:
+                vs = [((k_ + tag) if k_.startswith("c05:hang:") else k_, w_, i_) for (k_, w_, i_) in vs]
             if not vs:
                 worst_p = max(worst_p, mp_ / pl_)
                 worst_t = max(worst_t, mt_ / tl_)
@@ -691,10 +757,11 @@ def replay(entry):
     item = (inp["sql"], inp.get("dialect", ""), levels)
     r = guarded_map(_replay_job, [item], batch=1, workers=1)[0]
     if r == KILLED:
-        keys = ["c05:hang:any:killed-by-watchdog"]
+        keys = ["c05:hang:any:killed-by-watchdog" + scaling_tag(inp["sql"])]
         whats = ["killed by watchdog"]
     else:
-        keys = [k for k, _, _ in r[2]]
+        tag = scaling_tag(inp["sql"])
+        keys = [(k + tag) if (tag and k.startswith("c05:hang:")) else k for k, _, _ in r[2]]
         whats = [w for _, w, _ in r[2]]
     hit = entry["key"] in keys
     return {"violated": hit, "observed": "; ".join(f"{k} [{w}]" for k, w in zip(keys, whats)) or "contract holds for this input",
